@@ -89,6 +89,9 @@ def emit_words(c, words, inner_lemmas, arms):
         lit = json.dumps(w, ensure_ascii=False)
         o.append(f"    #[verifier::opaque] pub closed spec fn w_{n}() -> Seq<char> {{ {seqlit(w)} }}")
         o.append(f"    pub proof fn vx_lit_{n}() ensures {lit}@ == w_{n}() {{ reveal(w_{n}); reveal_strlit({lit}); assert({lit}@ =~= {seqlit(w)}); }}")
+        if len(w) <= 4:
+            facts = " && ".join([f"w_{n}().len() == {len(w)}"] + [f"w_{n}()[{i}] == " + ("'\\''" if ch == "'" else f"'{ch}'") for i, ch in enumerate(w)])
+            o.append(f"    pub proof fn vx_chars_{n}() ensures {facts} {{ reveal(w_{n}); }}")
     mw = sorted(set(w for ws, _, _ in arms for w in ws))
     o.append(f"    /// integer fingerprints of the model's words (computed on their spelling)")
     o.append(f"    pub proof fn {c}_codes()")
